@@ -29,7 +29,7 @@ RULE = ("plans = seed x network x bip32/49/84 variant x derivation histories on 
 FAULT_KINDS = ["db_statement_error", "db_crash_before_commit", "db_commit_error", "secrets_cleared"]
 PROBES = ["warm_cache_rederive", "cache_key_other_as_private", "hardened_from_public_refused", "index>=2^24", "index=2^31-1",
           "depth>=5", "wire_roundtrip_private", "wire_roundtrip_public", "range_expansion", "children_iter", "fresh_rebuild",
-          "electrum_commutation", "electrum_buffer_reused", "keychain_lookup_resolved", "keychain_lookup_absent_after_crash", "variant_bip49",
+          "electrum_commutation", "electrum_buffer_reused", "numeric_hardened_index_refused", "keychain_lookup_resolved", "keychain_lookup_absent_after_crash", "variant_bip49",
           "variant_bip84", "network_non_btc", "known_version_bytes"]
 
 _NETS = None
@@ -124,7 +124,7 @@ def gen_plan(rng, tier, index, config=None):
         steps.append(st_)
     while len(steps) < nsteps:
         op = r.weighted([("derive", 10), ("rederive", 4), ("public_copy", 2), ("export", 4), ("children", 1),
-                         ("subkeys", 2), ("fresh", 2), ("hfp", 2), ("kc", 14 if have_kc else 4), ("electrum", 1)])
+                         ("subkeys", 2), ("fresh", 2), ("hfp", 2), ("numhard", 1.5), ("kc", 14 if have_kc else 4), ("electrum", 1)])
         src = r.pick(sorted(nodes))
         priv = nodes[src]
         if op == "derive":
@@ -209,6 +209,9 @@ def gen_plan(rng, tier, index, config=None):
             steps.append({"op": "subkeys", "src": src, "comps": comps, "spell": r.pick(["H", "p", "'"])})
         elif op == "fresh":
             steps.append({"op": "fresh", "src": src})
+        elif op == "numhard":
+            steps.append({"op": "numhard", "src": src, "i": r.pick([1 << 31, (1 << 31) + 5, (1 << 32) - 1, (1 << 31) + r.bits(20)]),
+                          "via": r.pick(["subkey", "path"])})
         elif op == "hfp":
             pubs = [k for k, v in nodes.items() if not v]
             if not pubs:
@@ -645,6 +648,29 @@ def _op_hfp(ctx, W, st):
         _check_node(ctx, W, node, m, "after-refusal")
 
 
+def _op_numhard(ctx, W, st):
+    """a child number of 2^31 or more spelled as a plain number (no hardening marker): the node may refuse it; if it answers,
+    the answer is the hardened child the standard defines for that child number - which a public-only node cannot produce"""
+    src = W.objs.get(st["src"])
+    if src is None:
+        return
+    msrc = W.models[st["src"]]
+    i = st["i"]
+    try:
+        node = src.subkey(i=i) if st["via"] == "subkey" else src.subkey_for_path("%d" % i)
+    except Exception as e:
+        ctx.probe("numeric_hardened_index_refused")
+        ctx.obs("numhard", type(e).__name__)
+        return
+    ctx.obs("numhard", "answered")
+    if msrc["k"] is None:
+        ctx.violate("C09", "hardened-from-public-not-refused", {"i": i, "spelling": "numeric", "via": st["via"]})
+        return
+    m = _mderive(msrc, [[i - (1 << 31), True]])
+    if m is not None:
+        _check_node(ctx, W, node, m, "numeric-hardened-index")
+
+
 # -- key database --------------------------------------------------------------------------------
 
 class _KC(object):
@@ -888,7 +914,7 @@ _OPS = {"root": _op_root, "derive": _op_derive, "public_copy": _op_public_copy, 
         "kc_new": _op_kc_new, "kc_add_secret": _op_kc_add_secret, "kc_add_paths": _op_kc_add_paths,
         "kc_commit": _op_kc_commit, "kc_commit_fault": _op_kc_commit_fault, "kc_fault": _op_kc_fault,
         "kc_crash": _op_kc_crash, "kc_clear_secrets": _op_kc_clear, "kc_lookup": _op_kc_lookup,
-        "electrum": _op_electrum}
+        "electrum": _op_electrum, "numhard": _op_numhard}
 
 
 def normal_form(plan):
